@@ -3,6 +3,7 @@ import LeanHelix.Model.Leader
 import LeanHelix.Model.Timeout
 import LeanHelix.Model.State
 import LeanHelix.Model.Contexts
+import LeanHelix.Model.Trigger
 namespace LeanHelix.Driver
 open LeanHelix Parse
 
@@ -65,6 +66,27 @@ def contextsStep (r : Contexts.Reg) (toks : List String) : Option (Contexts.Reg 
       let live := sortHVs (r.live.map (·.1))
       let ls := if live.isEmpty then "-" else ",".intercalate (live.map showHV)
       some (r, s!"wm={wm} live={ls} shutdown={showBool r.shutdown}")
+  | _ => none
+
+end LeanHelix.Driver
+
+namespace LeanHelix.Driver
+open LeanHelix Parse
+
+def fireCurrent (t : Trigger.Trig) : Trigger.Trig :=
+  match t.timer with
+  | some id => Trigger.fire t id
+  | none => t
+
+def triggerStep (t : Trigger.Trig) (toks : List String) : Option (Trigger.Trig × String) :=
+  match toks with
+  | ["reset"] => some ({}, "reset")
+  | ["register", h, v] => do pure (Trigger.register t (← natOf h) (← natOf v), "ok")
+  | ["stop"] => some (Trigger.stop t, "ok")
+  | ["settle"] => some (fireCurrent t, "ok")        -- real time passes: a pending timer expires
+  | ["await"] =>
+      let (t', r) := Trigger.recv (fireCurrent t)
+      some (t', match r with | some (h, v) => s!"trigger {h} {v}" | none => "none")
   | _ => none
 
 end LeanHelix.Driver
